@@ -68,33 +68,52 @@ def sample_events(cases, k=3):
     return out
 
 
-def trace_check(prop, tier, seed, sched, spec, cfg, *, level="model_checking", rule, assumptions,
-                serde=True, profile="dev", nshards=14, timeout=3000, deque=False, weight=None, extra_cov=None,
-                distinct_fn=None):
-    t0 = time.time()
+def run_trace(tag, sched, spec, cfg, *, serde=True, profile="dev", nshards=14, timeout=3000, deque=False, weight=None):
+    """record the schedule on the real code and validate the trace; returns (events, cases, result)"""
     binp = vlib.build_harness(profile, serde)
-    wd = vlib.workdir("run-" + prop)
+    wd = vlib.workdir("run-" + tag)
     sp, tp = os.path.join(wd, "sched.ndjson"), os.path.join(wd, "trace.ndjson")
     vlib.write_ndjson(sp, sched.lines())
     vlib.drive(binp, sp, tp)
     events = vlib.read_ndjson(tp)
     cases = vlib.split_events(events)
-    wfn = weight or (lambda evs: sum(max(1, ev.get("n", 1) if isinstance(ev.get("n", 1), int) else 1) for ev in evs))
-    res = vlib.validate_cases(prop, spec, cfg, cases, nshards=nshards, timeout=timeout, deque=deque, weight=wfn)
+    wfn = weight or default_weight
+    res = vlib.validate_cases(tag, spec, cfg, cases, nshards=nshards, timeout=timeout, deque=deque, weight=wfn)
+    import shutil
+    shutil.rmtree(wd, ignore_errors=True)
+    return events, cases, res
+
+
+def default_weight(evs):
+    return sum(max(1, ev.get("n", 1) if isinstance(ev.get("n", 1), int) else 1) for ev in evs)
+
+
+def base_cov(parts, rule, spec_names):
+    """coverage record from one or more (events, cases, res) runs"""
+    states = sum(r["states"] for _, _, r in parts)
+    runs = sum(r["tlc_runs"] for _, _, r in parts)
+    allcases = [c for _, cs, _ in parts for c in cs]
+    return {"states": max(1, states), "transitions": max(1, states - runs),
+            "traces_validated_against_impl": sum(r["accepted_cases"] for _, _, r in parts),
+            "samples": sample_events(allcases),
+            "events_validated": sum(r["events"] for _, _, r in parts),
+            "events_recorded": sum(len(e) for e, _, _ in parts),
+            "cases": len(allcases), "rejected_cases": sum(len(r["rejected"]) for _, _, r in parts), "tlc_runs": runs,
+            "rule": rule, "exhaustive": False,
+            "checker_cmd": "; ".join("tlc -config spec/trace/%s.cfg spec/trace/%s.tla (TRACE=<shard>)" % (n, n) for n in spec_names)}
+
+
+def trace_check(prop, tier, seed, sched, spec, cfg, *, level="model_checking", rule, assumptions,
+                serde=True, profile="dev", nshards=14, timeout=3000, deque=False, weight=None, extra_cov=None,
+                distinct_fn=None):
+    t0 = time.time()
+    events, cases, res = run_trace(prop, sched, spec, cfg, serde=serde, profile=profile, nshards=nshards,
+                                   timeout=timeout, deque=deque, weight=weight)
     nviol = report_rejections(prop, res["rejected"], sched)
-    nsteps = sum(wfn(evs) for _, evs in cases)
-    cov = {"states": max(1, res["states"]), "transitions": max(1, res["states"] - res["tlc_runs"]),
-           "traces_validated_against_impl": res["accepted_cases"],
-           "samples": sample_events(cases),
-           "events_validated": res["events"], "events_recorded": len(events), "generator_steps": nsteps,
-           "cases": len(cases), "rejected_cases": len(res["rejected"]), "tlc_runs": res["tlc_runs"],
-           "rule": rule, "exhaustive": False,
-           "checker_cmd": "tlc -config spec/trace/%s spec/trace/%s (TRACE=<shard>)" % (cfg, spec)}
+    cov = base_cov([(events, cases, res)], rule, [spec.replace(".tla", "")])
     if extra_cov:
         cov.update(extra_cov)
     vlib.write_evidence(prop, tier, seed, level, cov, assumptions, time.time() - t0, nviol)
-    import shutil
-    shutil.rmtree(wd, ignore_errors=True)
     return 1 if nviol else 0
 
 
@@ -240,4 +259,106 @@ def check_C05(tier, seed):
                      assumptions=COMMON_ASSUME[:2] + ["the twin (same seed, native-width calls only) defines the native word stream, as in the property statement",
                                                      "rand_core's BlockRng/BlockRng64/impls are a dependency: modelled in ApiImpl and bound by conformance, not verified themselves"],
                      extra_cov=extra)
+    return rc
+
+
+# ---------------------------------------------------------------- C12
+JIT_ASSUME = COMMON_ASSUME[:2] + ["the timer is scripted: JitterRng is exercised as a function of the readings it is given; every event carries exactly the readings the call consumed (instrumented closure)",
+                                  "cfg(rngs_verif) accessors expose pool, rounds, mem_prev_index and the pending-half flag after every call"]
+
+
+def jit_weight(evs):
+    return sum(1 + len(ev.get("reads", [])) // 3 for ev in evs)
+
+
+def check_C12(tier, seed):
+    S = corpora.c12_corpus(seed, tier)
+    return trace_check("C12", tier, seed, S, "Trace_Jitter.tla", "Trace_Jitter.cfg", weight=jit_weight,
+                       rule="seeded operation histories (next_u32/next_u64/fill_bytes/timer_stats/set_rounds/clone) on JitterRng over scripted timers whose reading-level delta patterns (random, constant, linear, zero, backwards, arbitrary u64, large) drive every branch of the stuck test; each event logs the readings consumed; TLC recomputes LFSR folds, stuck tests, rotations, stir, memory-walk position, flag, value and the exact number of readings. distinct = distinct recorded events",
+                       assumptions=JIT_ASSUME)
+
+
+# ---------------------------------------------------------------- C14
+def only_panics(rejected):
+    out = []
+    for r in rejected:
+        evs = r["events"]
+        bad = evs[r["at_event"] - 1] if 0 < r["at_event"] <= len(evs) else None
+        if bad is not None and "panic" in bad and not (bad.get("e") == "set_rounds" and bad.get("r") == 0):
+            out.append(r)
+    return out
+
+
+def check_C14(tier, seed):
+    t0 = time.time()
+    parts, nviol = [], 0
+    other = 0
+    for tag, S, spec, w in (("C14-jit", corpora.c14_jitter_corpus(seed, tier), "Trace_Jitter", jit_weight),
+                            ("C14-api", corpora.c14_api_corpus(seed, tier), "Trace_Stream", None),
+                            ("C14-alg", corpora.c14_alg_corpus(seed, tier), "Trace_Alg", None)):
+        ev, cs, res = run_trace(tag, S, spec + ".tla", spec + ".cfg", weight=w)
+        parts.append((ev, cs, res))
+        pan = only_panics(res["rejected"])
+        other += len(res["rejected"]) - len(pan)
+        nviol += report_rejections("C14", pan, S)
+    cov = base_cov(parts, "overflow-checked dev build; every operation wrapped in catch_unwind; the total specification expects exactly one panic (set_rounds(0)); hostile corpora: JitterRng timers with deltas +-(2^31-1), -2^31, 2^31, 2^32+-1, 2^63, u64 wrap-around, strictly decreasing, ping-pong between values 2^31 apart, in next_*/fill_bytes/timer_stats and across all 400 probes of test_timer; all-0xFF / all-zero / high-bit seeds and extreme u64 seeds of all 19 seedable types with fill_bytes lengths 0..17, block size +-1 (and 100000 in thorough) interleaved with next_*; jump/long_jump on all-ones states. distinct = distinct recorded events",
+                   ["Trace_Jitter", "Trace_Stream", "Trace_Alg"])
+    cov["panics_observed"] = sum(1 for e, _, _ in parts for x in e if "panic" in x)
+    cov["rejections_attributed_to_other_properties"] = other
+    vlib.write_evidence("C14", tier, seed, "model_checking", cov,
+                        JIT_ASSUME + ["a rejection whose failing event is not a panic belongs to the property that owns the value (C05/C12/C13) and is not counted here"],
+                        time.time() - t0, nviol)
+    return 1 if nviol else 0
+
+
+# ---------------------------------------------------------------- C13
+def run_tt_mc(wd, tiny=2, maxmean=10000):
+    cfg = os.path.join(wd, "MC_TestTimer.cfg")
+    with open(cfg, "w") as f:
+        f.write("SPECIFICATION Spec\nCONSTANTS\n  TinyLimit = %d\n  MaxMean = %d\nINVARIANT OutcomeAllowed\nINVARIANT ErrorWhenDefinite\n"
+                "INVARIANT NeverAsserts\nINVARIANT RoundsPositive\nCHECK_DEADLOCK FALSE\n" % (tiny, maxmean))
+    return vlib.run_tlc(os.path.join(vlib.SPEC, "mc", "MC_TestTimer.tla"), cfg, os.path.join(wd, "meta_tt"), workers=4, timeout=1200, xmx="4g")
+
+
+def parse_tt_cases(out):
+    import re
+    cases = []
+    for t in vlib.extract_tuples(out, "CASE"):
+        m = re.match(r'<<\s*"CASE",\s*(TRUE|FALSE),\s*(TRUE|FALSE),\s*(\d+),\s*(\d+),\s*(\d+),\s*<<(\d+), (\d+), (\d+), (\d+)>>', t)
+        if m:
+            zr, zd, b, md, st = m.group(1) == "TRUE", m.group(2) == "TRUE", int(m.group(3)), int(m.group(4)), int(m.group(5))
+            mean = vlib.from_limbs([int(m.group(i)) for i in (6, 7, 8, 9)])
+            cases.append({"zr": zr, "zd": zd, "back": b, "mod": md, "stuck": st, "mean": mean})
+    return cases
+
+
+def check_C13(tier, seed):
+    import random
+    t0 = time.time()
+    wd = vlib.workdir("mc-C13")
+    mc = run_tt_mc(wd, tiny=2, maxmean=10000 if tier != "quick" else 2000)
+    if not mc["completed"]:
+        raise ToolError("MC_TestTimer did not complete cleanly (model level):\n" + mc["out"][-3000:])
+    allcases = parse_tt_cases(mc["out"])
+    rng = random.Random(seed + 13)
+    # boundary selection: all count/flag combinations, every mean below 40, every power-of-two boundary, a sample of the rest
+    sel, seen = [], set()
+    for c in allcases:
+        key = (c["zr"], c["zd"], c["back"], c["mod"], c["stuck"], c["mean"])
+        if key in seen:
+            continue
+        seen.add(key)
+        benign = not (c["zr"] or c["zd"] or c["back"] or c["mod"] or c["stuck"])
+        m = c["mean"]
+        pow2 = m >= 16 and any(abs(m - (1 << k)) <= 1 for k in range(4, 33))
+        if benign and (m < (18 if tier == "quick" else 40) or (pow2 and (tier != "quick" or m % 2 == 0)) or rng.random() < (0.002 if tier == "quick" else 0.03)):
+            sel.append(c)
+        elif not benign and (tier != "quick" or rng.random() < 0.08):
+            sel.append(c)
+    S = corpora.c13_corpus(seed, tier, sel)
+    rc = trace_check("C13", tier, seed, S, "Trace_Jitter.tla", "Trace_Jitter.cfg", weight=jit_weight,
+                     rule="TLC enumerates abstract probe summaries over all boundary values (means 0..N and every 2^k-1, 2^k, 2^k+1; counts at 0/3/4/270/271/300; flags) and checks the code-shaped decision procedure against the outcome relation of the property, including set_rounds(test_timer()?) and the process-wide cache of JitterRng::new(); the boundary cases it visited are realised as concrete 1601-reading timer scripts, run through the real test_timer (then set_rounds), and Trace_Jitter recomputes the summary from the readings consumed and checks the returned Ok(r)/Err(e) against the relation. distinct = distinct recorded events",
+                     assumptions=JIT_ASSUME + ["counts and the mean are taken over the 300 probes after the 100 warm-up probes, as the crate documents; where the property leaves the reading open (first variation term, Z vs mod-2^32 differences, warm-up probes) the relation admits both"],
+                     extra_cov={"mc_model": {"states_generated": mc["states"], "distinct": mc["distinct"], "invariants": ["OutcomeAllowed", "ErrorWhenDefinite", "NeverAsserts", "RoundsPositive"],
+                                             "abstract_cases_enumerated": len(allcases), "cases_realised_as_scripts": len(sel)}})
     return rc
